@@ -124,14 +124,22 @@ func (e *ExchangeJSightSchema) processAllOf(uut *StringSet) error {
 	return e.exchangeContent.processAllOf(uut, e.catalogUserTypes)
 }
 
+// exampleMx serializes the building of the examples, see ExchangeJSightSchema.Example.
+var exampleMx sync.Mutex
+
 func (e *ExchangeJSightSchema) Example() ([]byte, error) {
 	// The example is built only once, because the example of a schema which
 	// uses a regex user type changes from call to call.
 	e.onceExample.Do(func() {
+		// The jsight-schema-core builds the example in a pooled buffer and returns
+		// a slice of that buffer after it has been put back into the pool, so
+		// another goroutine can overwrite it. That's why the examples are built
+		// one at a time and the result is copied before the lock is released.
+		exampleMx.Lock()
+		defer exampleMx.Unlock()
+
 		var b []byte
 		b, e.exampleErr = e.JSchema.Example()
-		// The returned slice belongs to a buffer pool of the jsight-schema-core,
-		// it has to be copied to be kept.
 		e.example = append([]byte(nil), b...)
 	})
 	return e.example, e.exampleErr
